@@ -49,6 +49,7 @@ def run():
         v, _w = core.apalache(module, inv, timeout=300)
         say(v != "NoError", "Apalache: %s of %s is %s" % (inv, module, "refuted" if v == "Error" else v))
     for init, inv, what in (("InitBad", "InvNoneMissed", "one snapshot per iteration (D01) loses a requested time"),
+                            ("InitBadMaxit", "InvMaxit", "an iteration limit compared with the cumulative count ends a restart early"),
                             ("Init", "InvVacThree", "three snapshots in one run are reachable"),
                             ("Init", "InvVacTwoInOne", "two snapshots in one iteration are reachable")):
         v, _w = core.apalache("Apa_Driver", inv, timeout=300, init=init, length=5)
